@@ -69,7 +69,14 @@ def proj_selector(sel):
 
 
 def proj_media(ml):
-    return [ml.item(i) for i in range(ml.length)]
+    # an empty media list denotes (and is serialised as) `all`
+    # which node owns a comment next to a media query (the rule or the query) is not observable: comments are left out
+    import re
+    out = []
+    for it in ml:
+        if hasattr(it.value, 'mediaText'):
+            out.append(' '.join(re.sub(r'/\*.*?\*/', ' ', it.value.mediaText, flags=re.S).split()))
+    return out or ['all']
 
 
 def proj_rule(cssutils, r):
@@ -95,7 +102,17 @@ def proj_rule(cssutils, r):
     if t == RULE.VARIABLES_RULE:
         return ('variables', [(k, r.variables[k]) for k in r.variables.keys()])
     if t == RULE.UNKNOWN_RULE:
-        return ('unknown', r.atkeyword, r.cssText)
+        items = []
+        for item in r.seq:
+            v = item.value
+            if hasattr(v, 'cssText'):
+                if MODE['minified']:
+                    continue
+                v = v.cssText
+            if item.type == 'S':
+                continue
+            items.append((item.type, v))
+        return ('unknown', r.atkeyword, items)
     return ('?', t, r.cssText)
 
 
@@ -108,6 +125,9 @@ def project_rules(cssutils, rules):
 
 def project(cssutils, sheet):
     return project_rules(cssutils, sheet.cssRules)
+
+
+HEX = '0123456789abcdefABCDEF'
 
 
 # ------------------------------------------------------------------------------------------------
@@ -166,8 +186,44 @@ def token_regions(cssutils, text, tk=None, encoding='utf-8', ident_form='either'
     depth = base_depth   # 1 for a text that is placed inside a block by a DOM edit
     at = None      # the at-rule whose prelude we are in
     raws = raw_texts(text, toks[:-1] if toks and toks[-1][0] == 'EOF' else toks)
+    prev = None            # previous token that is not white space
+    unknown_at = None      # depth at which the unknown at-rule we are in started
+    page = None            # state inside an @page selector: 'start' -> 'named' -> 'named-comment'
     for k, (typ, val, _l, _c) in enumerate(toks):
         raw = raws[k] if raws is not None and k < len(raws) else None
+        if typ != 'S':
+            if (prev == ('CHAR', '/') and typ in ('CHAR', 'SUBSTRINGMATCH') and val.startswith('*')) or \
+                    (prev is not None and prev[0] == 'CHAR' and prev[1] in ('*', '~', '|', '^', '$') and (typ, val) == ('CHAR', '=')):
+                # written without the white space between them: `/*` opens a comment, `*=` is one token
+                regs.add('C03-punctuation-fuses')
+            prev = (typ, val)
+        if typ == 'ATKEYWORD' and unknown_at is None:
+            unknown_at = depth
+            if not all(encodable(ch, encoding) for ch in val):
+                # at-keywords are kept as found, the escape written by the escapecss handler is read back as text
+                regs.add('C03-atkeyword-unencodable')
+        elif unknown_at is not None:
+            if typ == 'HASH' and len(val) == 7 and all(c in HEX for c in val[1:]) and \
+                    val[1].lower() == val[2].lower() and val[3].lower() == val[4].lower() and val[5].lower() == val[6].lower():
+                # minimizeColorHash shortens it although nothing says it is a colour
+                regs.add('C03-hash-in-unknown-rule')
+            if typ == 'CHAR' and ((val == ';' and depth == unknown_at) or (val == '}' and depth - 1 == unknown_at)):
+                unknown_at = None
+        if typ == 'PAGE_SYM':
+            page = 'start'
+        elif page is not None:
+            if typ == 'CHAR' and val in '{;}':
+                page = None
+            elif typ == 'IDENT' and page == 'start':
+                page = 'named'
+            elif typ == 'COMMENT' and page in ('named', 'named-comment'):
+                page = 'named-comment'
+            elif typ == 'CHAR' and val == ':' and page == 'named-comment':
+                # the serializer puts a space behind the comment: `a/*c*/ :first` is rejected
+                regs.add('C03-page-selector-comment')
+            elif typ not in ('COMMENT', 'S'):
+                page = 'other'
+
         if typ == 'CHAR' and val == '{':
             depth += 1
             at = None
@@ -430,10 +486,11 @@ class Gen:
     def media_query(self):
         rng = self.rng
         r = rng.random()
+        case = rng.choice([str, str, str, str.upper, str.capitalize])     # media types are case-insensitive
         if r < 0.6:
-            return rng.choice(MEDIA)
+            return case(rng.choice(MEDIA))
         if r < 0.8:
-            return rng.choice(['', 'only ', 'not ']) + rng.choice(MEDIA) + ' and (%s)' % rng.choice(
+            return rng.choice(['', 'only ', 'not ']) + case(rng.choice(MEDIA)) + ' and (%s)' % rng.choice(
                 ['min-width: 100px', 'color', 'max-width:20em', 'orientation: landscape'])
         return '(%s)' % rng.choice(['min-width: 100px', 'color', 'max-height: 3em'])
 
@@ -452,7 +509,7 @@ class Gen:
 
     def page_rule(self):
         rng = self.rng
-        sel = rng.choice(['', ' :first', ' :left', ' x', ' x:right'])
+        sel = rng.choice(['', ' :first', ' :left', ' x', ' x:right', ' :FIRST', ' /*c*/ :left', ' x /*c*/', ' :right/*c*/'])
         body = self.declarations(1, 3)
         if rng.random() < 0.4:
             if body and not body.rstrip().endswith(';') and not body.rstrip().endswith('*/'):
@@ -469,7 +526,8 @@ class Gen:
         parts = []
         for _ in range(rng.randint(0, 3)):
             parts.append(rng.choice([self.c.ident, self.c.string, self.c.url, self.number,
-                                     lambda: rng.choice(['(x)', '[a]', ',', ':', '+', '1 + 2', '>'])])())
+                                     lambda: rng.choice(['(x)', '[a]', ',', ':', '+', '1 + 2', '>', '#aabbcc', '#A1B2C3', '#AAbb00',
+                                                         'a / b', '* /', '/ *', 'a / * b', '/ *= x', '*= x', '~=', '!', '%', '1/2'])])())
         pre = (' ' + ' '.join(parts)) if parts else ''
         if rng.random() < 0.5:
             return kw + pre + ';'
@@ -774,13 +832,40 @@ def apply_op(cssutils, sheet, op):
             del sheet.namespaces[op[1]]
         elif name == 'setns':
             sheet.namespaces[op[1]] = op[2]
+        elif name == 'appendMedium':
+            media_lists(sheet)[op[1]].appendMedium(op[2])
+        elif name == 'deleteMedium':
+            media_lists(sheet)[op[1]].deleteMedium(op[2])
+        elif name == 'mediaText':
+            media_lists(sheet)[op[1]].mediaText = op[2]
+        elif name == 'setMedium':
+            media_lists(sheet)[op[1]][op[2]] = op[3]
+        elif name == 'importName':
+            rules_of(sheet, (RULE.IMPORT_RULE,))[op[1]].name = op[2]
+        elif name == 'importHref':
+            rules_of(sheet, (RULE.IMPORT_RULE,))[op[1]].href = op[2]
+        elif name == 'mqMediaType':
+            ml = media_lists(sheet)[op[1]]
+            ml._seq[op[2]].value.mediaType = op[3]
+        elif name == 'pageAddMargin':
+            rules_of(sheet, (RULE.PAGE_RULE,))[op[1]].add(cssutils.css.MarginRule(op[2], op[3]))
+        elif name == 'pageSetMargin':
+            rules_of(sheet, (RULE.PAGE_RULE,))[op[1]][op[2]] = cssutils.css.CSSStyleDeclaration(cssText=op[3])
+        elif name == 'pageSelector':
+            rules_of(sheet, (RULE.PAGE_RULE,))[op[1]].selectorText = op[2]
+        elif name == 'encoding':
+            sheet.encoding = op[1]
+        elif name == 'propName':
+            all_style_decls(cssutils, sheet)[op[1]].getProperties(all=True)[0].name = op[2]
+        elif name == 'nsPrefix':
+            rules_of(sheet, (RULE.NAMESPACE_RULE,))[op[1]].prefix = op[2]
         elif name == 'selectorText':
             rules_of(sheet, (RULE.STYLE_RULE,))[op[1]].selectorText = op[2]
         elif name == 'none':
             pass
         else:
             raise ValueError(name)
-    except (xml.dom.DOMException, IndexError, KeyError):
+    except (xml.dom.DOMException, IndexError, KeyError, LookupError):
         return False
     return True
 
@@ -825,4 +910,97 @@ def namespace_cases(rng, full):
                     ops += [['selectorText', 0, f] for f in ('x', 'q|x', '*:not(q|e)')]
                 for op in ops:
                     out.append((src, op))
+    return out
+
+
+# media lists: every spelling of the media types x every list operation
+def media_lists(sheet):
+    return [r.media for r in rules_of(sheet, (RULE.MEDIA_RULE, RULE.IMPORT_RULE))]
+
+
+MEDIA_BASES = ['print', 'PRINT', 'Print, screen', 'ALL', 'all', 'tv, PRINT', 'screen and (color), PRINT', 'NOT PRINT AND (COLOR)',
+               'only Screen and (min-width: 1px), tv', 'handheld, TV, projection', 'print, (color)', 'ScReEn']
+MEDIA_ARGS = ['print', 'PRINT', 'all', 'ALL', 'screen', 'Screen', 'tv', 'handheld', 'screen and (color)', 'not print',
+              'PRINT and (color)', '(min-width: 1px)', 'only tv']
+
+
+def media_cases(rng, full):
+    out = []
+    for base in MEDIA_BASES:
+        for wrap in ('@media %s{a{b:c}}', '@import "x.css" %s;a{b:c}'):
+            src = wrap % base
+            n = base.count(',') + 1
+            ops = [['none']]
+            ops += [['appendMedium', 0, m] for m in MEDIA_ARGS]
+            ops += [['deleteMedium', 0, m] for m in MEDIA_ARGS[:8]]
+            ops += [['mediaText', 0, m + ', ' + m2] for m in MEDIA_ARGS[:4] for m2 in MEDIA_ARGS[:6]]
+            ops += [['setMedium', 0, i, m] for i in range(n) for m in MEDIA_ARGS[:6]]
+            if not full:
+                ops = [ops[0]] + rng.sample(ops[1:], 14)
+            for op in ops:
+                out.append((src, op))
+    return out
+
+
+# attribute setters of single nodes (not parsing a whole rule): (source, op)
+def setter_cases(rng, full):
+    out = []
+    for src in ('@import "x.css";', '@import url(x.css) print, tv;', '@import "x.css" screen "old";'):
+        for name in ('n', 'a "b"', '', None):
+            out.append((src + 'a{b:c}', ['importName', 0, name]))
+        for href in ('y.css', 'a b.css', 'q("1").css'):
+            out.append((src + 'a{b:c}', ['importHref', 0, href]))
+    for mq in ('(min-width: 1px)', 'screen', 'not screen', 'only tv and (color)', 'screen and (min-width: 1px)',
+               '(color) and (max-width: 2em)', 'PRINT'):
+        for mt in ('print', 'all', 'TV'):
+            out.append(('@media %s{a{b:c}}' % mq, ['mqMediaType', 0, 0, mt]))
+            out.append(('@import "x.css" %s;' % mq, ['mqMediaType', 0, 0, mt]))
+    for page in ('@page{@top-left{a:b}}', '@page :first{margin:0;@top-left{a:b}@bottom-center{c:d}}', '@page x{margin:0}'):
+        for m in ('@top-left', '@bottom-center', '@TOP-LEFT', '@right-middle'):
+            out.append((page, ['pageAddMargin', 0, m, 'e:f']))
+            out.append((page, ['pageSetMargin', 0, m, 'e:f']))
+        for sel in (':first', 'x', 'x:left', 'x/*c*/:first', '/*c*/ :left', ':LEFT', ''):
+            out.append((page, ['pageSelector', 0, sel]))
+    for enc in ('ascii', 'iso-8859-1', 'utf-16', 'utf-8-sig', 'cp037', 'koi8-r', 'UTF-8'):
+        out.append(('a{content:"\xe9\u20ac"}/*\xe9*/', ['encoding', enc]))
+        out.append(('@charset "utf-8";a{b:c}', ['encoding', enc]))
+    for name in ('color', 'COLOR', 'c\\olor', 'x-y', '-moz-z'):
+        out.append(('a{left:0;top:1px}', ['propName', 0, name]))
+    for pre in ('q', 'p', '', 'P'):
+        out.append(('@namespace p "u";@namespace r "v";p|a,r|b{c:d}', ['nsPrefix', 0, pre]))
+    return out
+
+
+# every slot under an encoding that cannot encode the content
+ENC_TEMPLATES = ['/*%s*/a{b:c}', 'a{/*%s*/b:c}', '@%s x;', '@x %s;', 'a{b:"%s"}', "a{b:'\\%s'}", 'a{b:url(%s)}', 'a{b:%s}', '.%s{b:c}',
+                 '#%s{b:c}', 'a[b=%s]{c:d}', 'a{%s:c}', 'a{b:1%s}', 'a{b:%s(1)}', '@namespace %s "u";%s|a{b:c}', '@import "%s";',
+                 '@media print{.%s{b:c}}', '@page %s{b:c}', 'a{b:c\\%s}']
+ENC_ITEMS = ['\xe9', '\u20ac', 'x\xe9y', '\U0001F600']
+ENC_CHARSETS = ['ascii', 'iso-8859-1', 'utf-8', 'UTF-8', 'utf-16', 'cp1252', 'utf-8-sig', 'cp037', 'koi8-r', 'shift_jis']
+
+
+def encoding_cases(rng, full):
+    out = []
+    for cs in ENC_CHARSETS:
+        tmpls = ENC_TEMPLATES if full or cs in ('ascii', 'iso-8859-1') else rng.sample(ENC_TEMPLATES, 4)
+        for t in tmpls:
+            for it in (ENC_ITEMS if full else rng.sample(ENC_ITEMS, 2)):
+                out.append('@charset "%s";' % cs + t.replace('%s', it))
+    return out
+
+
+# unknown at-rules: every ordered pair of punctuation-like tokens, written with white space between them
+PUNCT = ['/', '*', '+', '-', '>', '~', ',', ':', '=', '!', '#x', '%', '|', '.', '^', '$', '&', '?', '<', ';x', '(x)', '[x]', '*=', '~=', '|=', '<!--', '-->', '@k', '1', 'x',
+         '"s"', 'url(u)', '1px', 'U+26']
+
+
+def tokenpair_cases(rng, full):
+    pairs = [(a, b) for a in PUNCT for b in PUNCT]
+    if not full:
+        pairs = rng.sample(pairs, 150)
+    out = []
+    for a, b in pairs:
+        out.append('@x p %s %s q;a{b:c}' % (a, b))
+        if full or rng.random() < 0.3:
+            out.append('@x {p %s %s q}a{b:c}' % (a, b))
     return out
